@@ -13,6 +13,8 @@ CHECKS = {
  "C10": ("marker integers planted in redeemer data identify the item each Plutus witness was attached to; every emitted (tag, index) is resolved against the emitted body under the ledger's ordering rules (sorted inputs, sorted policies, certificate order, reward accounts and voters in ledger order with script credentials first)", "4/C10"),
  "C11": ("own address codecs (header/var-nat/Bech32/Base58/CRC32/Byron CBOR written with the independent CBOR writer) and a three-valued reference classifier (must-accept / must-reject / don't-care) compared with the stand-alone parsers on all 256 headers x lengths 0..=80, and with the decoders of outputs/bodies/transactions/UTxOs embedding the same byte strings", "4/C11"),
  "C12": ("signatures verified with cryptoxide's Ed25519 verifier called directly (positive and mutated-negative cases), derived keys compared byte-for-byte with the ed25519-bip32 crate, encodings decoded with own Bech32/hex codecs, EMIP-3 container recomputed with cryptoxide (PBKDF2 + ChaCha20-Poly1305) and tampered bit by bit", "4/C12"),
+ "C08": ("the random draws of the random-improve strategies are put under a choice tape (patched rand crate inside the harness workspace): every choice sequence of small instances is executed depth-first and each leaf is judged - inputs distinct, subset of offered, pre-existing untouched, real input values cover outputs + min fee; largest-first prefix/minimality; insufficiency errors re-checked with all offered UTxOs", "4/C08"),
+ "C13": ("every transaction returned by create_send_all is re-read by the independent reader and judged by the ledger model: exact-once input multiset, target address, balance against the UTxO table, fee against the really witnessed size, size limits, min-ADA; each case repeated to sample hash-order schedules", "4/C13"),
  "C14": ("exact big-integer / map-model reference for every arithmetic and conversion operation of BigNum, Int, BigInt, Value, MultiAsset, Mint, MintBuilder; release build and overflow-checking build", "4/C14"),
  "C16": ("insertion histories with repeats into every set-typed collection through add / from_bytes (own encodings) / from_json judged for duplicates and first-insertion order on getters and emitted bytes; canonical key order of asset maps under all insertion permutations; byte equality of 8 rebuilds of every successful builder state", "4/C16"),
  "C17": ("JSON round-trip monitors: metadata <-> JSON under the three schemas (order-normalised for NoConversions, exact for DetailedSchema), per-schema normal-form JSON grammars, own CBOR->JSON reading of each documented schema as cross-check, Plutus datums through DetailedSchema, chunked arbitrary bytes for every length 0..=1000, out-of-schema documents that must be refused", "4/C17"),
